@@ -307,6 +307,34 @@ def r2_simulate_writes_what_diff_reads(ctx):
                         'the hinted change of a relation target leaves a '
                         'residual difference' % (a, a),
                         key='changefield-not-written:%s' % a)
+    # the transfer of the mutation's attributes must be unfiltered: Diff
+    # hints "back to the default" by passing the default value itself
+    for mod, q in (('mutations.change_field', 'ChangeField.simulate'),
+                   ('mutations.add_field', 'AddField.simulate')):
+        sf = p.func(mod, q)
+        bad = None
+        for n in walk_no_nested(sf.node, include_lambda=True):
+            if isinstance(n, ast.comprehension) and \
+                    'self.field_attrs' in unparse(n.iter) and n.ifs:
+                bad = n.ifs[0]
+            if isinstance(n, ast.For) and 'self.field_attrs' in \
+                    unparse(n.iter):
+                for x in ast.walk(n):
+                    if isinstance(x, ast.If) and any(
+                            isinstance(y, (ast.Assign, ast.Call)) and
+                            'field_attrs' in unparse(y)
+                            for st in x.body for y in ast.walk(st)):
+                        bad = x.test
+        if bad is not None:
+            ctx.finding(sf, bad, '%s copies only the attributes satisfying '
+                        '"%s" into the field signature: a hinted change '
+                        'whose new value fails that test (e.g. '
+                        'db_column=None, back to the default) is never '
+                        'resolved' % (q, unparse(bad)),
+                        key='filtered-attr-transfer')
+        else:
+            ctx.ok(sf, '%s transfers every given attribute to the field '
+                   'signature (no value filter)' % q)
     # sibling rule: sites copying mutation.field_attrs into a signature /
     # field must split 'related_model' off first
     sites = (('mutations.add_field', 'AddField.simulate'),
